@@ -15,6 +15,10 @@ Literal transliterations (same branch order, comparison strictness, floating-poi
 * `query/nonlinear_shape_cast/nonlinear_rigid_motion.rs`  `NonlinearRigidMotion::position_at_time` for zero angular velocity
 
 Everything lives in `Model.SC` (2-D functions end in `2`, 3-D in `3`).
+
+`cast_shapes_ball_ball` is modelled as *corrected* (fixes/C06-ballball-unit-normal.diff); the pinned behaviour is kept as
+`castBallBallPinned*` for the refutation theorem.  The half-space ray cast follows the tree after
+`fix: HalfSpace ray cast handles rays parallel to the boundary plane`.
 -/
 namespace Model.SC
 open Model
